@@ -533,8 +533,9 @@ pub fn run_val(c: &Case, op: &ValOp, stats: &mut Stats, scratch: &std::path::Pat
     // ---- observations the model does not predict are masked on both sides and judged here:
     //  * Json: the filter compares SQLite's rendering of the value with a text (no defined meaning)
     //  * free=1: the statement contains a spliced default with a quote or NUL (C04_partial's guard excludes it)
-    //  * Float defaults and Float literals in filters are printed in decimal into the SQL text and parsed by SQLite
-    let mask_flt = c.ty == "Json" || op.free || (is_float && (dflt || c.fpos == "lit"));
+    //  * Float: a filter compares the bound/spliced f64 with SQLite's own reading of the stored JSON number text
+    //    (or of a decimal printed into the SQL text), which is not always correctly rounded
+    let mask_flt = c.ty == "Json" || op.free || is_float;
     let mask_ret = is_float && dflt;
     let mut exp: Vec<i64> = vec![7];
     for (k, d) in op.d.iter().enumerate() {
@@ -545,7 +546,15 @@ pub fn run_val(c: &Case, op: &ValOp, stats: &mut Stats, scratch: &std::path::Pat
     exp.sort();
     let exp_txt = exp.iter().map(|x| x.to_string()).collect::<Vec<_>>().join(",");
     if mask_flt && c.ty != "Json" && flt_txt != exp_txt {
-        let sig = if op.free { "default-spliced-into-sql" } else if dflt { "float-default-inexact" } else { "float-literal-inexact" };
+        let sig = if op.free {
+            "default-spliced-into-sql"
+        } else if dflt {
+            "float-default-inexact"
+        } else if c.fpos == "lit" {
+            "float-literal-inexact"
+        } else {
+            "float-stored-reparse-inexact"
+        };
         let d: String = flt.detail.replace('\n', " ").chars().take(120).collect();
         oracle.push((sig.to_string(), format!("equality filter returned rows [{}] expected [{}] {}", flt_txt, exp_txt, d)));
     }
